@@ -124,11 +124,12 @@ bool CodeWriterUtils::encode_offset32(uint32_t* dst, int64_t offset64, const Off
         return false;
       }
 
+      // Unlike `B` without `<cond>`, `ja` and `jb` are plain bits of the immediate (they are not XORed with the sign).
       uint32_t ia = (value & 0x0007FFu);
       uint32_t ib = (value & 0x01F800u) << (16 - 11);
       uint32_t ic = (value & 0x080000u) << (26 - 19);
-      uint32_t ja = ((~value >> 19) ^ (value >> 22)) & 1u;
-      uint32_t jb = ((~value >> 19) ^ (value >> 21)) & 1u;
+      uint32_t ja = (value >> 17) & 1u;
+      uint32_t jb = (value >> 18) & 1u;
 
       *dst = ia | ib | ic | (ja << 13) | (jb << 11);
       return true;
